@@ -909,7 +909,7 @@ Proof.
 Qed.
 
 Theorem gmw_breaks : forall fuel c toks st0, tree_ok fuel c -> K c toks st0 ->
-  okE (fun _ => True) (breaks c toks) (get_matches_with fuel c toks st0).
+  okE (K c toks) (breaks c toks) (get_matches_with fuel c toks st0).
 Proof.
   induction fuel as [|f IH]; intros c toks st0 Hok HK; [exact I|].
   destruct Hok as [Hwf [Happ Hch]]. pose proof Hwf as [_ [_ [W3 _]]].
@@ -930,7 +930,7 @@ Proof.
         destruct (negb (assert_app sc)); [exact I|].
         pose proof (Hch _ _ Eb) as Hsc.
         match goal with |- context [get_matches_with f sc rest ?s0] =>
-          assert (Hsub : okE (fun _ => True) (breaks sc rest) (get_matches_with f sc rest s0))
+          assert (Hsub : okE (K sc rest) (breaks sc rest) (get_matches_with f sc rest s0))
             by (apply IH; [exact Hsc|apply K_fresh; destruct keep; reflexivity]);
           destruct (get_matches_with f sc rest s0) as [sub_st|e sub_st|site]
         end; cbn [okE] in Hsub |- *.
@@ -956,7 +956,7 @@ Proof.
     eapply okE_bind; [eapply okE_weaken; [apply (add_defaults_K c toks st2 HK2)|intros s Hs; exact Hs|]|].
     { intros e He. apply BHere, LBLoop, LCReact. exact He. }
     intros st3 HK3. unfold vres_to_res.
-    destruct (validate c (mt st3)) as [|k a|s] eqn:Ev; cbn; [exact I| |exact I].
+    destruct (validate c (mt st3)) as [|k a|s] eqn:Ev; cbn; [exact HK3| |exact I].
     apply BHere. eapply LBValidate; [exact Happ|apply K_faithful; exact HK3|exact Ev|reflexivity].
   - destruct (is_set s_ignore_errors c); [|exact Hparsed].
     destruct (add_env c st) as [s1|e1 s1|x1]; try exact I;
@@ -976,6 +976,17 @@ Proof.
   - destruct (is_set s_ignore_errors (build_self c0) && use_stderr (e_kind e1)); [discriminate|].
     intros H; injection H as <-. exact Hs.
   - destruct s; discriminate.
+Qed.
+
+(** an accepted level: every explicit entry of its matcher is accounted for by the line or the environment *)
+Theorem accepted_faithful c0 toks st : plain c0 = true -> valid c0 = true ->
+  get_matches_with (S (S (depth (build_self c0)))) (build_self c0) toks ps_new = ROk st ->
+  faithful (build_self c0) toks (mt st).
+Proof.
+  intros Hp Hv H. unfold valid in Hv. cbn zeta in Hv.
+  pose proof (tree_ok_of_valid _ _ Hp Hv) as Hok.
+  pose proof (gmw_breaks _ (build_self c0) toks ps_new Hok (K_fresh (build_self c0) toks ps_new eq_refl)) as Hs.
+  rewrite H in Hs. apply K_faithful. exact Hs.
 Qed.
 
 Lemma bin_name_eta c0 : c0 <| c_bin_name := c_bin_name c0 |> = c0.
@@ -1162,4 +1173,129 @@ Proof.
   intros Hp Hvb Hv H. destruct (parse_top_breaks c0 argv e Hp Hvb Hv H) as [b [T [HT Hb]]].
   destruct (breaks_reach _ _ _ Hb) as [c' [T' [Hr Hl]]].
   exists b, T, c', T'. split; [exact HT|]. split; [exact Hr|]. apply level_breaks_justified. exact Hl.
+Qed.
+
+(** * non-vacuity: a valid [plain] command (required option, ranged integer option, conflicting flags,
+    require-equals option, two-valued option) and lines rejected with eleven different kinds *)
+Definition ex_dd (l : bytes) : bytes := 45 :: 45 :: l.
+Definition ex_cmd : cmd :=
+  let n := (arg_new [110]) <| a_long := Some [110; 97] |> <| a_required := true |> in
+  let k := (arg_new [107]) <| a_long := Some [107; 107] |> <| a_vp := Some (VPI64 (-5) 300) |> in
+  let f := (arg_new [102]) <| a_long := Some [102; 102] |> <| a_short := Some 102 |> <| a_action := Some ASetTrue |>
+             <| a_blacklist := [[111]] |> in
+  let o := (arg_new [111]) <| a_long := Some [111; 111] |> <| a_action := Some ASetTrue |> in
+  let q := (arg_new [113]) <| a_long := Some [113; 113] |> <| a_req_eq := true |> in
+  let w := (arg_new [119]) <| a_long := Some [119; 119] |> <| a_num := Some {| vmin := 2; vmax := 2 |} |> in
+  (cmd_new [112]) <| c_args := [n; k; f; o; q; w] |>.
+Definition ex_kind (l : list bytes) : option ekind :=
+  match parse_top ex_cmd ([112] :: l) with OErr e => Some (e_kind e) | _ => None end.
+
+Example kind_sound_nonvacuous :
+  plain ex_cmd = true /\ valid ex_cmd = true /\ (forall b, valid (ex_cmd <| c_bin_name := b |>) = true)
+  /\ map ex_kind
+       [ [];                                                            (* required --na missing *)
+         [ex_dd [110;97]; [120]];                                       (* accepted *)
+         [ex_dd [110;97]; [120]; ex_dd [102;102]; ex_dd [111;111]];     (* --ff conflicts with --oo *)
+         [ex_dd [110;97]; [120]; ex_dd [110;97]; [121]];                (* --na repeated *)
+         [ex_dd [110;97]; [120]; ex_dd [107;107]; [57;57;57]];          (* --kk 999: outside -5..=300 *)
+         [ex_dd [110;97]; [120]; ex_dd [113;113]; [118]];               (* --qq v: `=` required *)
+         [ex_dd [110;97]; [120]; ex_dd [102;102;61;120]];               (* --ff=x: a flag takes no value *)
+         [ex_dd [110;97]; [120]; ex_dd [119;119]; [118]];               (* --ww v: two values declared *)
+         [ex_dd [110;97]; [120]; ex_dd [122;122]];                      (* --zz unknown *)
+         [ex_dd [110;97]; [255]];                                       (* value is not UTF-8 *)
+         [ex_dd [104;101;108;112]];                                     (* --help *)
+         [ex_dd [110;97]] ]                                             (* --na without a value *)
+     = [Some EMissingRequiredArgument; None; Some EArgumentConflict; Some EArgumentConflict; Some EValueValidation;
+        Some ENoEquals; Some ETooManyValues; Some EWrongNumberOfValues; Some EUnknownArgument; Some EInvalidUtf8;
+        Some EDisplayHelp; Some EInvalidValue].
+Proof.
+  split; [vm_compute; reflexivity|]. split; [vm_compute; reflexivity|]. split; [|vm_compute; reflexivity].
+  intros [b|]; vm_compute; reflexivity.
+Qed.
+
+(** * the definitions spelled out (pinned in Properties/C10.v, so that a change of a definition shows) *)
+Lemma long_selects_spec c f a : long_selects c f a <->
+  (get_long c f = Some a
+   \/ (is_set s_infer_long c = true /\ In a (c_args c) /\ a_is_positional a = false /\
+       ((exists l, a_long a = Some l /\ is_prefix f l = true)
+        \/ existsb (fun p => is_prefix f (fst p)) (a_aliases a) = true))).
+Proof. split; intros H; exact H. Qed.
+Lemma occurs_spec c T a : occurs c T a <->
+  exists tok, In tok T /\
+    ((exists f ok v, to_long tok = Some (f, ok, v) /\ long_selects c f a)
+     \/ (exists r, to_short tok = Some r /\
+                   exists n ch r', sf_next (skipn n r) = Some (inl ch, r') /\ get_short c ch = Some a)
+     \/ a_index a <> None).
+Proof. split; intros H; exact H. Qed.
+Lemma selId_spec c T i : selId c T i <->
+  exists a, (In a (c_args c) /\ occurs c T a) /\ (a_id a = i \/ In i (groups_for_arg c (a_id a))).
+Proof. split; intros H; exact H. Qed.
+Lemma envId_spec c i : envId c i <->
+  exists a, In a (c_args c) /\ a_env a <> None /\ (a_id a = i \/ In i (groups_for_arg c (a_id a))).
+Proof. split; intros H; exact H. Qed.
+Lemma faithful_spec c T m : faithful c T m <->
+  forall i ma, In (i, ma) (explicit_entries m) ->
+    (m_source ma = Some SCmdLine /\ selId c T i) \/ (m_source ma = Some SEnv /\ (selId c T i \/ envId c i)).
+Proof. split; intros H; exact H. Qed.
+Lemma Breaks_spec c0 argv e : Breaks c0 argv e <->
+  exists b T c' T', suffix_of T argv /\ reach (build_self (c0 <| c_bin_name := b |>)) T c' T' /\ kind_justified c' T' e.
+Proof. split; intros H; exact H. Qed.
+
+Lemma justified_missing c T e : kind_justified c T e -> e_kind e = EMissingRequiredArgument ->
+  exists m req, faithful c T m /\ gather_requires c m (required_graph c) = Some req /\ missing_cause c m req (e_arg e).
+Proof. unfold kind_justified. intros H Hk. rewrite Hk in H. exact H. Qed.
+
+Lemma justified_conflict c T e : kind_justified c T e -> e_kind e = EArgumentConflict ->
+  (accounted c T (e_arg e) /\ is_some (find_arg c (e_arg e)) = true /\
+   exists other, accounted c T other /\ other <> e_arg e /\
+                 (Relations.declares c (e_arg e) other \/ Relations.declares c other (e_arg e)))
+  \/ (accounted c T (e_arg e) /\
+      exists a m, find_arg c (e_arg e) = Some a /\ a_exclusive a = true /\ faithful c T m /\
+                  (2 <= length (filter (fun p => is_some (find_arg c (fst p))) (explicit_entries m)))%nat)
+  \/ (exists a s st, In a (c_args c) /\ srcOKarg c T a s /\ e_arg e = a_id a /\ K c T st /\
+                     mt_contains (mt st) (a_id a) = true /\
+                     (is_set s_args_override_self c || mem_id (a_id a) (a_overrides a)) = false /\
+                     In (a_get_action a) [ASet; ASetTrue; ASetFalse])
+  \/ (exists tok, In tok T /\ unknown_cause c tok e)
+  \/ is_set s_args_negate_subs c = true.
+Proof. unfold kind_justified. intros H Hk. rewrite Hk in H. exact H. Qed.
+
+Lemma justified_count c T e : kind_justified c T e ->
+  In (e_kind e) [ETooManyValues; ETooFewValues; EWrongNumberOfValues] ->
+  (exists a raw r, In a (c_args c) /\ occurs c T a /\ Forall (origin c T) raw /\ a_num a = Some r /\
+                   e_arg e = a_id a /\ count_breaks (e_kind e) r (N.of_nat (length raw)))
+  \/ (e_kind e = ETooManyValues /\ exists tok, In tok T /\ unneeded_cause c tok (e_arg e)).
+Proof.
+  unfold kind_justified. intros H Hk. cbn in Hk. destruct Hk as [Hk|[Hk|[Hk|[]]]]; rewrite <- Hk in H.
+  - destruct H as [H|H]; [left; exact H|right; split; [symmetry; exact Hk|exact H]].
+  - left; exact H.
+  - left; exact H.
+Qed.
+
+Lemma justified_noeq c T e : kind_justified c T e -> e_kind e = ENoEquals ->
+  exists tok, In tok T /\ noeq_cause c tok (e_arg e).
+Proof. unfold kind_justified. intros H Hk. rewrite Hk in H. exact H. Qed.
+
+Lemma justified_value c T e : kind_justified c T e ->
+  In (e_kind e) [EInvalidValue; EValueValidation; EInvalidUtf8] ->
+  (exists a s vp v, In a (c_args c) /\ srcOKarg c T a s /\ a_vp a = Some vp /\ origin c T v /\
+                    vp_parse vp v = Some (e_kind e) /\ ~ in_lang vp v /\ e_arg e = a_id a)
+  \/ (exists v, In v T /\ is_set s_allow_external c = true /\
+                vp_parse (opt_default VPOsString (c_ext_vp c)) v = Some (e_kind e) /\
+                ~ in_lang (opt_default VPOsString (c_ext_vp c)) v)
+  \/ (e_kind e = EInvalidValue /\
+      exists a raw r, In a (c_args c) /\ occurs c T a /\ Forall (origin c T) raw /\ a_num a = Some r /\
+                      e_arg e = a_id a /\ count_breaks (e_kind e) r (N.of_nat (length raw)))
+  \/ (e_kind e = EInvalidUtf8 /\ exists tok, In tok T /\ utf8_valid tok = false /\ is_set s_allow_external c = true).
+Proof.
+  unfold kind_justified. intros H Hk. cbn in Hk. destruct Hk as [Hk|[Hk|[Hk|[]]]]; rewrite <- Hk in H.
+  - destruct H as [H|[H|H]]; [left; exact H|right; right; left; split; [symmetry; exact Hk|exact H]|right; left; exact H].
+  - destruct H as [H|H]; [left; exact H|right; left; exact H].
+  - destruct H as [H|[H|H]]; [left; exact H|right; left; exact H|right; right; right; split; [symmetry; exact Hk|exact H]].
+Qed.
+
+Lemma justified_unknown c T e : kind_justified c T e -> unknown_kind (e_kind e) ->
+  (exists tok, In tok T /\ unknown_cause c tok e) \/ (exists names, suffix_of names T /\ e = help_walk c names).
+Proof.
+  unfold kind_justified. intros H [Hk|Hk]; rewrite Hk in H; [left; exact H|exact H].
 Qed.
